@@ -150,6 +150,24 @@ def reg_task(task):
             except BaseException:
                 pass
             used = '.'.join(str(i) for i in log)
+            # the other instructions that run the signature extensions must use exactly the same (active) plugins
+            for pname_, probe_, cv_ in (('CHECK_TEMPLATE', b'\x02\x61' + bytes([F.opcodes_inverse['OP_CHECK_TEMPLATE'][0], 1]), {'sigfield1': b'a'}),
+                                        ('SIGN', bytes([3, 32]) + bytes(range(32)) + bytes([F.opcodes_inverse['OP_SIGN'][0], 0]), {'sigfield1': b'a'}),
+                                        ('CHECK_SIG', bytes([3, 64]) + bytes(64) + bytes([3, 32]) + bytes([1]) + bytes(31) + bytes([F.opcodes_inverse['OP_CHECK_SIG'][0], 0]), {'sigfield1': b'a'})):
+                mark_ = len(log)
+                try:
+                    F.run_script(probe_, dict(cv_))
+                except BaseException:
+                    pass
+                used_ = '.'.join(str(i) for i in log[mark_:])
+                stats['used-by-' + pname_] += 1
+                want_ = used
+                if pname_ == 'CHECK_TEMPLATE':      # ... followed by the plugins of the check_template scope, once for the one template checked
+                    want_ = '.'.join([x_ for x_ in [used] if x_] + [str(PLUGS.index(p_)) for p_ in F._plugins.get('check_template', [])])
+                if used_ != want_:
+                    stats['direct-fail'] += 1
+                    if len(viol) < 8:
+                        viol.append(dict(what='after this history OP_GET_MESSAGE runs the signature extensions %r, so OP_%s should run %r, but it runs %r' % (used, pname_, want_, used_), ops=ops))
             impl = ' | '.join([pl, ct, ifs, al, outs, used])
             line = 'REG %s 0,1 0,1 - %s' % (mstr, ','.join('.'.join(map(str, o)) for o in ops))
             m = model.cmd(line)
